@@ -1,0 +1,68 @@
+//go:build verif
+
+package verifapi
+
+import "github.com/deepteams/webp/internal/lossy"
+
+// Re-exports for the reconstruction model of property C06 (suite reconmodel).
+
+type (
+	ReconQuantIn     = lossy.VerifQuantIn
+	ReconQuantOut    = lossy.VerifQuantOut
+	ReconToken       = lossy.VerifToken
+	ReconMBIn        = lossy.VerifMBIn
+	ReconMBOut       = lossy.VerifMBOut
+	ReconFrameTokens = lossy.VerifFrameTokens
+)
+
+func ReconQuantRoundTrip(in ReconQuantIn) ReconQuantOut { return lossy.VerifQuantRoundTrip(in) }
+
+func ReconParseQuant(useSegment, absolute bool, segQ [4]int, base int, dq [5]int) [4][6]int {
+	return lossy.VerifParseQuant(useSegment, absolute, segQ, base, dq)
+}
+
+func ReconBlockTokens(levels [16]int16, nCoeffs, ctxType, first, ctx, dq0, dq1 int, outInit [16]int16) ([]ReconToken, int, [16]int16) {
+	return lossy.VerifBlockTokens(levels, nCoeffs, ctxType, first, ctx, dq0, dq1, outInit)
+}
+
+func ReconTokenFrame(mbW, mbH int, mbs []ReconMBIn, q [6]int) ReconFrameTokens {
+	return lossy.VerifTokenFrame(mbW, mbH, mbs, q)
+}
+
+func ReconQuantize(in [16]int16, dcQuant, acQuant, kind, first int) (levels [16]int16, nz int, levelsGo [16]int16, nzGo int, deq, deqGo [16]int16) {
+	return lossy.VerifQuantize(in, dcQuant, acQuant, kind, first)
+}
+
+func ReconDequant(levels [16]int16, dcQuant, acQuant int) [16]int16 {
+	return lossy.VerifDequant(levels, dcQuant, acQuant)
+}
+
+func ReconTrellis(in [16]int16, dcQuant, acQuant, kind, first, ctxType, ctx, lambda int) ([16]int16, int) {
+	return lossy.VerifTrellis(in, dcQuant, acQuant, kind, first, ctxType, ctx, lambda)
+}
+
+func ReconDecTransform(code int, coeffs [16]int16, pred [16]byte) [16]byte {
+	return lossy.VerifDecTransform(code, coeffs, pred)
+}
+
+func ReconEncTransform(coeffs [16]int16, pred [16]byte) [16]byte {
+	return lossy.VerifEncTransform(coeffs, pred)
+}
+
+func ReconDecUVTransform(bits uint32, coeffs [64]int16, pred [64]byte) [64]byte {
+	return lossy.VerifDecUVTransform(bits, coeffs, pred)
+}
+
+func ReconEncUVTransform(coeffs [64]int16, pred [64]byte) [64]byte {
+	return lossy.VerifEncUVTransform(coeffs, pred)
+}
+
+func ReconWHT(in [16]int16) [16]int16 { return lossy.VerifWHT(in) }
+
+func ReconPred16(mode int, top [16]byte, left [16]byte, tl byte) (dec, enc [256]byte) {
+	return lossy.VerifPred16(mode, top, left, tl)
+}
+
+func ReconPred8(mode int, top [8]byte, left [8]byte, tl byte) (dec, enc [64]byte) {
+	return lossy.VerifPred8(mode, top, left, tl)
+}
